@@ -304,6 +304,9 @@ func (ex *Exec) lvalue(e ast.Expr, st *State) *LValue {
 		return &LValue{kind: lvVar, obj: v, rootT: v.Type()}
 	case *ast.StarExpr:
 		p := ex.eval(e.X, st)
+		if p.T == nil {
+			unsupp("dereference of a value without type: %s (dead=%v)", ex.src(e), st.dead)
+		}
 		pt := p.T.Underlying().(*types.Pointer)
 		if p.Loc != nil {
 			return p.Loc
@@ -595,6 +598,10 @@ func (ex *Exec) evalBinary(e *ast.BinaryExpr, st *State) Value {
 			g = mkNot(a)
 		}
 		sub.assume(g)
+		if sub.dead {
+			// the right operand is never evaluated
+			return boolV(a)
+		}
 		n0 := len(sub.pc)
 		b := ex.eval(e.Y, sub).scalar()
 		if !sub.dead {
